@@ -32,6 +32,12 @@ impl<CS: ConcurrentStream> ConcurrentStream for Take<CS> {
     where
         C: Consumer<Self::Item, Self::Future>,
     {
+        // Taking zero items never touches the underlying stream.
+        if self.limit == 0 {
+            let mut consumer = core::pin::pin!(consumer);
+            return consumer.as_mut().flush().await;
+        }
+
         self.inner
             .drive(TakeConsumer {
                 inner: consumer,
